@@ -48,6 +48,7 @@ def required(tier):
         "shape.nested_group": 20,
         "shape.nonterminal_rep": 50,
         "shape.same_base_twice": 50,
+        "shape.rule_with_action": 100,
         "greedy.cases": 1000,
         "greedy.single_maximal_tree": 300,
         "greedy.plain_alternative_accepted": 30,
@@ -214,11 +215,26 @@ def make_grammar(rng):
         plain.append(rng.choice(PLAIN_RULES["A"]))
     if "Sep" in used:
         plain.append(PLAIN_RULES["Sep"][0])
-    sugared = "S: " + " | ".join(" ".join(elem_text(e) for e in alt) for alt in alts) + ";\n" + "\n".join(plain) + "\n" + TERMS
+    # a user action given in the grammar with @name belongs to the rule it is written on,
+    # not to the helper rules generated for the operators and groups inside it
+    head = ""
+    if rng.random() < 0.3:
+        head = "@wrap\n"
+        stats.add("rule_with_action")
+        if rng.random() < 0.5:
+            plain = ["@wrap\n" + x for x in plain]
+    sugared = head + "S: " + " | ".join(" ".join(elem_text(e) for e in alt) for alt in alts) + ";\n" + "\n".join(plain) + "\n" + TERMS
     ex = Expander()
     s_alts = [" ".join(ex.elem(e) for e in alt) for alt in alts]
-    expanded = "S: " + " | ".join(s_alts) + ";\n" + "\n".join(plain + ex.rules) + "\n" + TERMS
+    expanded = head + "S: " + " | ".join(s_alts) + ";\n" + "\n".join(plain + ex.rules) + "\n" + TERMS
     return sugared, expanded, ex.actions, stats
+
+
+def wrap(_, nodes):
+    return ("W", nodes)
+
+
+USER_ACTIONS = {"wrap": wrap}
 
 
 def results_of(parser, forest, limit=150):
@@ -232,12 +248,17 @@ def drop_later_nones(v):
     """KF-C13-4 normalisation: None elements after the first position of a list."""
     if isinstance(v, list):
         return [drop_later_nones(x) for i, x in enumerate(v) if i == 0 or x is not None]
+    if isinstance(v, tuple):
+        # the ("W", children) wrapper of the user action: not a collected list itself
+        return tuple(drop_later_nones(x) for x in v)
     return v
 
 
 def has_later_none(v):
     if isinstance(v, list):
         return any(x is None for x in v[1:]) or any(has_later_none(x) for x in v)
+    if isinstance(v, tuple):
+        return any(has_later_none(x) for x in v)
     return False
 
 
@@ -270,7 +291,8 @@ def sugar_case(ctx, gmon):
         ctx.count("shape." + s)
     try:
         with pgx.watchdog(30):
-            gs = pgx.glr(pgx.grammar(sugared))
+            actions = dict(actions, **USER_ACTIONS)
+            gs = pgx.glr(pgx.grammar(sugared), actions=USER_ACTIONS)
             ge = pgx.glr(pgx.grammar(expanded), actions=actions)
     except pgx.CaseTimeout:
         ctx.inconc("construction timeout")
@@ -283,7 +305,7 @@ def sugar_case(ctx, gmon):
     ls = le = None
     es = ee = None
     try:
-        ls = pgx.lr(pgx.grammar(sugared))
+        ls = pgx.lr(pgx.grammar(sugared), actions=USER_ACTIONS)
     except Exception as e:  # noqa: BLE001
         es = type(e).__name__
     try:
@@ -663,11 +685,12 @@ def replay(case, ctx):
         if "sugared" in case and "input" in case:
             # the expansion's actions are rebuilt by re-deriving them from rule names
             actions = rebuild_actions(case["expanded"])
-            gs = pgx.glr(pgx.grammar(case["sugared"]))
+            actions.update(USER_ACTIONS)
+            gs = pgx.glr(pgx.grammar(case["sugared"]), actions=USER_ACTIONS)
             ge = pgx.glr(pgx.grammar(case["expanded"]), actions=actions)
             ls = le = None
             try:
-                ls = pgx.lr(pgx.grammar(case["sugared"]))
+                ls = pgx.lr(pgx.grammar(case["sugared"]), actions=USER_ACTIONS)
                 le = pgx.lr(pgx.grammar(case["expanded"]), actions=actions)
             except Exception:  # noqa: BLE001
                 ls = le = None
